@@ -1096,6 +1096,54 @@ def f_tr_card_short(deck, rng):
 
 
 NEUTRAL = {'tr_card_short'}
+# fault classes whose outcome depends on geometry the validation model does not
+# hold (C07 models the hexagon walk, C02 the numbering of cone pieces): swept
+# with the property oracle, not compared with the model
+SWEEP_ONLY = {'hex_nonprism', 'cone_selector'}
+
+
+def f_hex_nonprism(deck, rng):
+    '''LAT=2 cell bounded by six planes that are no hexagonal prism (the first
+    two are not even parallel).'''
+    out = []
+    for k in _lat_cells(deck):
+        cell0 = deck['cells'][k]
+        if 'lat=2' not in cell0['opts'] or cell0['ndim'] != 2:
+            continue
+        d = _clone(deck)
+        cell = d['cells'][k]
+        ids = [abs(l[0]) for l in cell['lits']]
+        surfs = {s['id']: s for s in d['surfs']}
+        while True:
+            normals = [[rng.choice([-1.0, 0.0, 1.0, 0.5, -0.5, 2.0]) for _ in range(3)]
+                       for _ in range(6)]
+            a, b = normals[0], normals[1]
+            cross = (a[1] * b[2] - a[2] * b[1], a[2] * b[0] - a[0] * b[2],
+                     a[0] * b[1] - a[1] * b[0])
+            if all(any(n) for n in normals) and any(cross):
+                break
+        for sid, nrm in zip(ids, normals):
+            surfs[sid]['mn'] = 'p'
+            surfs[sid]['params'] = nrm + [rng.choice([-2.0, -1.0, -0.5, 0.5, 1.0, 1.5, 2.0])]
+        cell['lits'] = [[rng.choice([1, -1]) * sid, None] for sid in ids]
+        out.append((d, f'cell {cell["id"]} six arbitrary planes'))
+    return out
+
+
+def f_cone_selector(deck, rng):
+    '''One-sheet selector of a cone card that is not +1 / -1.'''
+    out = []
+    for k, surf0 in enumerate(deck['surfs']):
+        n = len(surf0['params'])
+        if not ((surf0['mn'] in ('kx', 'ky', 'kz') and n in (2, 3))
+                or (surf0['mn'] in ('k/x', 'k/y', 'k/z') and n in (4, 5))):
+            continue
+        d = _clone(deck)
+        surf = d['surfs'][k]
+        base = 2 if surf['mn'] in ('kx', 'ky', 'kz') else 4
+        surf['params'] = surf['params'][:base] + [rng.choice([2.0, -2.0, 3.0, -3.0, 5.0])]
+        out.append((d, f'surface {surf["id"]} {surf["mn"]} selector {surf["params"][-1]}'))
+    return out[:3]
 
 
 def _array_cells(deck):
@@ -1270,6 +1318,8 @@ FAULTS = {
     'facet_range_filler': (f_facet_range_filler, ['fill']),
     'tr_card_arity': (f_tr_card_arity, ['tr']),
     'tr_card_short': (f_tr_card_short, ['tr']),
+    'hex_nonprism': (f_hex_nonprism, ['lat']),
+    'cone_selector': (f_cone_selector, []),
     'fill_array_len': (f_fill_array_len, ['lat']),
     'fill_array_plus3': (f_fill_array_plus3, ['lat']),
     'fill_array_surplus_tr': (f_fill_array_surplus_tr, ['lat', 'tr']),
